@@ -559,8 +559,8 @@ class NDRouterAdvertisement (icmp_base):
           struct.unpack_from("!BBHII", raw, offset)
       offset += 1 + 1 + 2 + 4 + 4
       offset,o.options = _parse_ndp_options(raw, prev, offset, buf_len)
-      o.is_managed = flags & cls.MANAGED_FLAG
-      o.is_other = flags & cls.OTHER_FLAG
+      o.is_managed = (flags & cls.MANAGED_FLAG) != 0
+      o.is_other = (flags & cls.OTHER_FLAG) != 0
 
       o.parsed = True
     except TruncatedException:
